@@ -627,3 +627,37 @@ Proof.
   cbn [lookup app assoc] in L. destruct (path_eqb [a] (x0 :: x ++ s)) eqn:E; [|discriminate].
   peq. inversion E as [[E1 E2]]. symmetry in E2. apply app_eq_nil in E2. destruct E2. contradiction.
 Qed.
+
+(* ---------- the decidable form of the hypothesis (checked on every observed workspace) ---------- *)
+Lemma nodupb_sound l : nodupb l = true -> NoDup l.
+Proof.
+  induction l as [|x r IH]; cbn [nodupb]; intros H; [constructor|].
+  apply andb_true_iff in H. destruct H as [H1 H2]. constructor; [|apply IH; exact H2].
+  intros I. apply negb_true_iff in H1.
+  assert (existsb (path_eqb x) r = true) by (apply existsb_exists; exists x; split; [exact I|apply path_eqb_refl]).
+  congruence.
+Qed.
+
+Lemma prefixes_aux_in : forall x cur s, x <> [] -> s <> [] -> In (cur ++ x) (prefixes_aux cur (x ++ s)).
+Proof.
+  induction x as [|c x IH]; intros cur s Hx Hs; [congruence|].
+  cbn [app prefixes_aux]. destruct (x ++ s) as [|y r] eqn:E.
+  - apply app_eq_nil in E. destruct E; contradiction.
+  - rewrite <- E. destruct x as [|c2 x'].
+    + left. reflexivity.
+    + right. replace (cur ++ c :: c2 :: x') with ((cur ++ [c]) ++ c2 :: x') by (rewrite <- app_assoc; reflexivity).
+      apply IH; [discriminate|exact Hs].
+Qed.
+
+Theorem wf_fsb_sound f : wf_fsb f = true -> fs_wf f.
+Proof.
+  unfold wf_fsb. rewrite !andb_true_iff. intros [[ND NN] TR]. split; [apply nodupb_sound; exact ND|]. split.
+  - intros I. apply negb_true_iff in NN.
+    assert (existsb (path_eqb []) (map fst f) = true) by (apply existsb_exists; exists []; split; [exact I|reflexivity]).
+    congruence.
+  - intros x s n L Hs. destruct x as [|x0 x']; [reflexivity|].
+    assert (I : In ((x0 :: x') ++ s, n) f) by (apply assoc_in; exact L).
+    rewrite forallb_forall in TR. specialize (TR _ I). cbn [fst] in TR. rewrite forallb_forall in TR.
+    specialize (TR (x0 :: x') (prefixes_aux_in (x0 :: x') [] s ltac:(discriminate) Hs)).
+    unfold is_dir in TR. destruct (lookup f (x0 :: x')) as [[b|]|]; try discriminate. reflexivity.
+Qed.
